@@ -1,4 +1,4 @@
-package main
+package c13facts
 
 // A tiny translator from straight-line math/big code to Lean (`Int`), used to REGENERATE the
 // model of crypto.InRange / crypto.CheckDHParams from the repository's current source.
